@@ -25,4 +25,12 @@ TEXT = {
         "technique": "Lean 4 theorems on an executable model + differential correspondence",
     },
 }
+TEXT["C08"] = {
+    "level": "Machine-checked proof (19 theorems) that the MemoryStore algorithm (set_impl fast path/resize/truncate, validated ranged reads, strip-and-split list_dir, "
+             "erase_prefix) and the generic read-modify-write partial write refine a plain ordered-map specification for every operation and state: slices, zero-extension "
+             "without truncation, replacement, exact key/prefix/directory listings; all 11 provided stores and adapters (filesystem +-direct I/O, object_store, opendal sync/async, "
+             "zip, usage-log, performance-metrics) are tied to the same specification by differential operation sequences with the property's tolerance for out-of-bounds reads.",
+    "note": _TB + "Third-party back ends and the OS file system are corresponded only; one open finding (stale empty directories in object_store/opendal local-fs listings) is listed in known_findings.jsonl.",
+    "technique": "Lean 4 refinement proof to an ordered-map spec + differential operation sequences on 11 stores",
+}
 NOT_YET = {}
